@@ -447,6 +447,90 @@ fn main() {
             }
             cr
         }));
+        // ---- the close-session packet generated BEFORE or IN THE MIDDLE of the transfers (prepared for a shutdown hook,
+        // sent redundantly, one of several destinations told to stop): every packet read() returns afterwards still has A = 0
+        gens.push(Gen::new("close_session_then_more", 48, move |ctx, i| {
+            let mut rng = Rng::keyed(ctx.seed, "C08cs", 0, i as u64);
+            let fec = ALL_FEC[i % ALL_FEC.len()];
+            let mut oti = OtiSpec::new(fec, 16, if fec == Fec::Raptor { 5 } else { 3 }, if fec == Fec::NoCode { 0 } else { 1 });
+            oti.inband_fti = i % 2 == 0;
+            let mut spec = SenderSpec::new(OtiSpec::new(Fec::NoCode, 256, 8, 0));
+            spec.tsi = *rng.pick(&[1u64, 7, 0x1_0000, 0xFFFF_FFFF_FFFF]);
+            let at = [0usize, 1, 2, 5, 9, 14][(i / ALL_FEC.len()) % 6];
+            let twice = i % 3 == 0;
+            let mut cr = CaseResult::default();
+            let r = util::guarded(|| {
+                let mut s = spec.sender()?;
+                for k in 0..2 {
+                    let len = if fec == Fec::Raptor { 16 * 5 * (k + 1) } else { 16 * (4 + 3 * k) - 5 };
+                    let mut o = ObjSpec::new(gen_bytes(&mut rng, len), &format!("file:///cs/{}", k));
+                    o.oti = Some(oti.clone());
+                    o.max_transfer_count = 2;
+                    let b = build_object(&o)?;
+                    s.add_object(0, b.desc).map_err(|e| format!("add_object: {:?}", e))?;
+                }
+                s.publish(util::t0()).map_err(|e| format!("publish: {:?}", e))?;
+                let mut pkts: Vec<(bool, Vec<u8>)> = vec![];
+                let mut t_ms = 0u64;
+                let mut idle = 0;
+                while idle < 3 && pkts.len() < 400 {
+                    if pkts.iter().filter(|p| !p.0).count() == at && !pkts.iter().any(|p| p.0) || (twice && pkts.iter().filter(|p| !p.0).count() == at + 6 && pkts.iter().filter(|p| p.0).count() == 1) {
+                        pkts.push((true, s.read_close_session(util::at(t_ms))));
+                    }
+                    match s.read(util::at(t_ms)) {
+                        Some(b) => {
+                            idle = 0;
+                            pkts.push((false, b));
+                        }
+                        None => {
+                            idle += 1;
+                            t_ms += 100;
+                        }
+                    }
+                }
+                Ok::<_, String>(pkts)
+            });
+            match r {
+                Ok(Ok(pkts)) => {
+                    let mut after = 0u64;
+                    let mut seen_close = false;
+                    for (k, (is_close, b)) in pkts.iter().enumerate() {
+                        let p = match vh::wire::decode(b) {
+                            Ok(p) => p,
+                            Err(e) => {
+                                cr.violations.push(Violation::new("undecodable", format!("packet {} does not decode: {}", k, e)).witness(json!({"bytes": util::hex(b)})));
+                                break;
+                            }
+                        };
+                        if *is_close {
+                            seen_close = true;
+                            if !p.lct.a || p.lct.b || p.lct.tsi != spec.tsi {
+                                cr.violations.push(Violation::new("close_session_packet", format!("close-session packet generated after {} packets decodes to {:?}", k, p.lct)).witness(json!({"bytes": util::hex(b)})));
+                            }
+                        } else {
+                            if seen_close {
+                                after += 1;
+                            }
+                            if p.lct.a {
+                                cr.violations.push(Violation::new("close_session_flag_on_data", format!(
+                                    "packet {} returned by read() (TOI {}, SBN {}, ESI {}) carries the close-session flag; read_close_session() had been called after {} packets", k, p.lct.toi, p.sbn, p.esi, at))
+                                    .with("fec", fec.name()).with("after_read_close_session", seen_close).with("fdt_packet", p.lct.toi == 0)
+                                    .witness(json!({"packet": k, "close_session_generated_after": at, "bytes": util::hex(&b[..b.len().min(64)])})));
+                                break;
+                            }
+                        }
+                    }
+                    cr.count("packets_read_after_the_close_session_packet", after);
+                    if after > 0 {
+                        cr.shape = Some(util::fnv(&format!("csm|{}|{}|{}", fec.name(), at, twice)));
+                    }
+                    cr.sample = Some(json!({"fec": fec.name(), "close_session_generated_after": at, "packets": pkts.len(), "read_after": after}));
+                }
+                Ok(Err(e)) => cr.inconclusive = Some(e),
+                Err(p) => cr.violations.push(Violation::new("panic", format!("{} @ {}", p.msg, p.short_loc())).with("site", p.file())),
+            }
+            cr
+        }));
         gens
     });
 }
